@@ -27,6 +27,7 @@ import (
 	"path/filepath"
 	"sort"
 	"strconv"
+	"strings"
 	"sync"
 	"sync/atomic"
 	"time"
@@ -274,6 +275,11 @@ func initTSTable(fileSystem fs.FileSystem, rootPath string, p common.Position,
 			continue
 		}
 		if filepath.Ext(ee[i].Name()) != snapshotSuffix {
+			if strings.HasSuffix(ee[i].Name(), snapshotSuffix+".tmp") {
+				// A crash inside WriteAtomic before the rename leaves "<epoch>.snp.tmp"; it is never
+				// read and a later epoch never reuses the name, so drop it here.
+				needToDelete = append(needToDelete, ee[i].Name())
+			}
 			continue
 		}
 		snapshot, err := parseSnapshot(ee[i].Name())
